@@ -13,7 +13,7 @@ from cpverif.props import c01
 LEVEL = "exploration"
 RULE = (
     "field declarations drawn from per-type rule grammars (Integer: rule ranges / length only / neither / both; Decimal: "
-    "ranges with 0-4 fraction digits under the four separator conventions (every third such field has judged a cell before its data format got the separators); Choice/Constant: quoted and bare items; "
+    "ranges with 0-4 fraction digits under the four separator conventions, fixed cells also with a tab / no-break space / ideographic space / unit separator at an edge (every third such field has judged a cell before its data format got the separators); Choice/Constant: quoted and bare items; "
     "DateTime: random orderings of DD MM YYYY YY hh mm ss with separators; Pattern: globs with * ? [..] [!..]; RegEx: a "
     "generated subset; Text) x data formats delimited/fixed/excel/ods x cells rendered from the rule (every range "
     "boundary, every choice, valid dates incl. 29 Feb) and single mutations of accepted cells (+-1 beyond a limit, "
@@ -686,6 +686,15 @@ def run(ctx):
             fmt_cache[key] = make_format(kind, dec, ths)
         fmt = fmt_cache[key]
         length, rule, cells, flags = gen_declaration(ctx, rng, type_name, kind, dec, ths)
+        if kind == "fixed" and length.isdigit():
+            # white space that is no blank, at the edges of a cell: part of the value, not padding
+            cells, flags = list(cells), list(flags)
+            for cell in rng.sample(cells, min(3, len(cells))):
+                if cell and cell.strip(" ") == cell and len(cell) < int(length):
+                    other = rng.choice("\t\xa0\u3000\x1f")
+                    cells += [cell + other, other + cell]
+                    flags += [True, True]
+                    ctx.count("fixed-cells.with-other-white-space-at-the-edge", 2)
         empty = rng.random() < 0.3 and type_name != "Constant"
         if type_name == "Decimal" and (dec, ths) != (".", "") and i % 3 == 0 and cells:
             fmt, field = make_late_format(ctx, "C02", kind, dec, ths, type_name, empty, length, rule, cells[0], mon)
